@@ -8,6 +8,8 @@ inline std::string u16json(const std::vector<uint16_t>& v) {
 }
 // abstract shape record (MeshOps.tla) of one shape, through the public accessors
 std::string projectShape(nifly::NifFile& nif, nifly::NiShape* shape, ContentIds& ids);
+// adds an NiTriStrips shape "Strips" (3x3 grid, stitched strips) below the root
+void addStripsShape(nifly::NifFile& nif);
 // a shape whose vertex i sits at (i, 0, 0) (labels), with UVs exact in half precision and optional unit normals
 nifly::NiShape* buildShape(nifly::NifFile& nif, const std::string& name, size_t nv, const std::vector<nifly::Triangle>& tris, bool withNormals);
 // skin the shape to `nbones` new bones; weightsOf(v) lists (bone, weight) of vertex v
